@@ -5,7 +5,10 @@ package trzsz
 // width 5..500; C: the callback state machine over arbitrary int64 arguments (every render sees 0 <= step <= size);
 // D: the bar for every length and every valid (step, size). Float expressions are replaced by a contract stub.
 
-import "strconv"
+import (
+	"math"
+	"strconv"
+)
 
 type zzSink20 struct{ data []byte }
 
@@ -195,4 +198,22 @@ func zzH_C20_percent() {
 	if len(sink.chunks) > n {
 		check(true)
 	}
+}
+
+
+// F — the size and duration formatters on extreme values (0, tiny, 2^50 and beyond, infinities, NaN, negative): they
+// return (no endless loop, no crash). Float comparisons are free in the symbolic build, so every branch combination of
+// the formatters is walked; a loop that can go round for ever shows up as an exceeded unwinding bound and is then
+// confirmed natively with the listed values.
+func zzH_C20_converters() {
+	vals := []float64{0, 0.5, 1023, 1024, 1 << 50, 1 << 62, 1e300, math.Inf(1), math.Inf(-1), math.NaN(), -1}
+	f := vals[verifNondetRange(0, len(vals)-1)]
+	if verifNondetBool() {
+		s := convertSizeToString(f)
+		verifAssert(len(s) > 0, "empty size string")
+	} else {
+		s := convertTimeToString(f)
+		verifAssert(len(s) > 0, "empty duration string")
+	}
+	verifReach("converted")
 }
